@@ -1,44 +1,64 @@
 """C25 Shortest-path zones (Floyd / Dijkstra / DijkstraCache) compute minimal chains of declared routes; Full returns the declared route."""
+import os
 import shutil
+import sys
 import tempfile
+import threading
+import time
 
-from verif import proc
+from verif import core
 from verif.gen import routing as G
 from verif.oracles import routing as O
 
 META = {
     "id": "C25", "engine": "E3 route_dump", "engine_path": "harness/route_dump.cpp",
-    "engine_kind": "C++ harness building generated zones through the platform API, one forked child per platform under a CPU-time watchdog; python reference",
+    "engine_kind": "C++ harness building generated zones through the platform API (several zones side by side per engine, one forked child per engine, "
+                   "per-query CPU-time watchdog); python reference",
     "level": "exploration",
     "technique": "reference shortest-path differential: every route_to()/get_local_route() answer of a Floyd, Dijkstra or DijkstraCache zone must decompose "
                  "into a chain of declared one-hop routes and have the minimal link count computed by an independent Dijkstra; Full zones must echo the declaration",
     "level_text": "Random weakly/strongly connected graphs of 3..30 vertices (hosts and routers) with one-hop routes of 1..3 links (shared, fat-pipe and "
                   "split-duplex links with directions; symmetric, one-way, or both directions declared with different link lists; links reused between "
-                  "routes) are each built three times (Floyd, Dijkstra, DijkstraCache) through the C++ API and every ordered pair that has a path is queried "
-                  "(hosts through Host::route_to, all vertices through the zone's get_local_route). The python reference recomputes the minimal link count and "
-                  "checks that the returned list is a chain of declared routes from source to destination of exactly that cost, that the three zone kinds "
-                  "agree on the cost, that DijkstraCache answers the same on a cache miss and on a hit (each pair is asked twice, in random order), and "
-                  "that a Full zone returns exactly the declared list (reversed, with split-duplex directions flipped, for the symmetric copy). Every "
-                  "platform runs in its own child process under a CPU-time budget; a query that burns the whole budget, and again a 4x budget in a second "
-                  "run, is reported as a spinning route computation.",
-    "level_note": "Pairs without any path and source==destination queries are outside the statement and are not judged (on one-way graphs Dijkstra zones are only "
-                  "asked pairs that have a path). Plain flavour for all cases, ASan+UBSan flavour for a share of them.",
-    "rule": "case = one (graph, zone kind) platform; non-trivial = distinct platforms fully answered and checked in which at least one judged pair needs a chain of >=2 declared routes",
+                  "routes; a few declared self routes) are each built three times (Floyd, Dijkstra, DijkstraCache) through the C++ API and every ordered pair "
+                  "that has a path is queried (hosts through Host::route_to, all vertices through the zone's get_local_route). The python reference "
+                  "recomputes the minimal link count and checks, for every answer, that the returned list is a concatenation of declared one-hop routes "
+                  "(links in declared order, reversed with flipped split-duplex directions for the symmetric copy) from source to destination of exactly "
+                  "that cost, that the three zone kinds agree on the link count, that DijkstraCache answers the same on a cache miss and on a hit (each "
+                  "pair is asked twice, in random order), that a pair without any path is never answered with a route, and that a Full zone returns "
+                  "exactly the declared list. A query that burns its whole CPU budget, and again a 4x budget in a second run, is reported as a spinning "
+                  "route computation. Directed cases (run first, on every zone kind): the minimal witnesses of the open findings, a detour shorter than "
+                  "the direct route, equal-cost alternatives, asymmetric declarations, a one-way ring, a line with routers, a link shared by two hops.",
+    "level_note": "source==destination queries are outside the statement and only counted. While the directed witness of the open finding "
+                  "'Dijkstra zones spin as soon as a node is unreachable from the source' still spins, the random one-way graphs ask Dijkstra zones only the "
+                  "pairs that this defect cannot touch (no unreachable node is as near to the destination as the source is), except every 8th graph; once it "
+                  "is fixed every pair (and a sample of unreachable pairs) is asked everywhere. Plain flavour for all cases, ASan+UBSan flavour for a share of them.",
+    "rule": "case = one (graph, zone kind) platform; non-trivial = distinct platforms whose asked pairs were all answered and checked and in which at least "
+            "one judged pair needs a chain of >=2 declared routes",
     "assumptions": ["route cost = number of links of the declared one-hop routes (as documented for Floyd/Dijkstra zones)"],
     "ready": False,
 }
 
 KINDS = ("floyd", "dijkstra", "dijkstracache")
+# Feature of a (source, destination) pair of a Dijkstra zone that the open finding F13 can touch: some node x that the source
+# cannot reach has a path to the destination that is not longer than the source's. (DijkstraZone relaxes the edges out of x
+# with cost ULONG_MAX + c = c - 1; the predecessor of a node u is overwritten only if that wrapped cost is below the true
+# distance, and a destination whose predecessor chain is intact is answered correctly. So pairs without this feature must
+# be right even on the unfixed tree, and keep their own keys.)
+CONE = "unreachable-node-no-farther-from-dst"
+CPU_Q = {"hooks": 0.5, "asan": 2.0}     # CPU seconds for ONE query or build step (a query normally needs microseconds)
+CPU_CONFIRM = 2.0
+WALL = 300.0                            # wall-clock budget of one child, last resort -> inconclusive
 
 
+# ----------------------------------------------------------------------------------------------------------------------
+# generators
+# ----------------------------------------------------------------------------------------------------------------------
 def gen_graph(rng, small=False):
     n = rng.choice([3, 3, 4, 4, 5, 5, 6, 7, 8, 10, 12, 16, 22, 30] if not small else [3, 4, 5])
     names = []
-    nrouter = 0
     for i in range(n):
         if i >= 2 and rng.random() < 0.2:
             names.append(("r%d" % i, "router"))
-            nrouter += 1
         else:
             names.append(("h%d" % i, "host"))
     cls = "strong" if rng.random() < 0.65 else "weak"
@@ -67,7 +87,12 @@ def gen_graph(rng, small=False):
             add(a, b, rng.random() < 0.4)
     for _ in range(rng.randint(0, 2 * n)):
         add(rng.randrange(n), rng.randrange(n), rng.random() < 0.4)
-    # links
+    if rng.random() < 0.12:          # declared self routes (replace the automatic loopback of that vertex)
+        for _ in range(rng.randint(1, 2)):
+            a = rng.randrange(n)
+            if (a, a) not in used:
+                used.add((a, a))
+                routes.append((a, a, False))
     nlinks = 0
     links = []           # (name, lat, policy)
     decl = []
@@ -85,48 +110,148 @@ def gen_graph(rng, small=False):
     return dict(nodes=names, links=links, routes=decl, cls=cls)
 
 
-def build_plat(pid, kind, g, rng):
+def _g(nodes, links, routes, cls="strong"):
+    """Directed graph literal: nodes 'a b r:router', links 'l0 l1:D', routes [(a, b, 'l0 l1:U', sym)]."""
+    nn = [(x.split(":")[0], "router" if x.endswith(":router") else "host") for x in nodes.split()]
+    ll = [(x.split(":")[0], 1e-3, x.split(":")[1] if ":" in x else "S") for x in links.split()]
+    rr = []
+    for a, b, lst, sym in routes:
+        rr.append((a, b, [tuple(x.split(":")) if ":" in x else (x, G.NONE) for x in lst.split()], sym))
+    return dict(nodes=nn, links=ll, routes=rr, cls=cls)
+
+
+def directed_graphs():
+    """(name, graph). d0/d1 are the minimal witnesses of the two open findings; the others are boundary shapes."""
+    return [
+        # F13: s->u and x->u one-way; x cannot be reached from s; the declared pair s->u is asked
+        ("d0", _g("s u x", "a b", [("s", "u", "a", False), ("x", "u", "b", False)], "weak")),
+        # hop link order: one symmetric route of three links between two hosts
+        ("d1", _g("a b", "l0 l1 l2", [("a", "b", "l0 l1 l2", True)])),
+        # a detour of two one-link hops beats the direct three-link route
+        ("d2", _g("a b c", "d0 d1 d2 e f", [("a", "b", "d0 d1 d2", True), ("a", "c", "e", True), ("c", "b", "f", True)])),
+        # two equal-cost alternatives (either is right), no direct route
+        ("d3", _g("a b c d", "p q r s", [("a", "c", "p", True), ("c", "b", "q", True), ("a", "d", "r", True), ("d", "b", "s", True)])),
+        # both directions declared separately with different lists and costs; the way back is cheaper through c
+        ("d4", _g("a b c", "u v w x y:D", [("a", "b", "u", False), ("b", "a", "v w x", False), ("b", "c", "y:U", True), ("c", "a", "u", False)])),
+        # line of six with routers inside
+        ("d5", _g("h0 r1:router r2:router r3:router r4:router h5", "k0 k1 k2 k3 k4",
+                  [("h0", "r1", "k0", True), ("r1", "r2", "k1 k1", True), ("r2", "r3", "k2", True), ("r3", "r4", "k3", True), ("r4", "h5", "k4 k0", True)])),
+        # F13 with a relay: s->m->u, x->m; s cannot reach x
+        ("d6", _g("s m u x", "a b c", [("s", "m", "a", False), ("m", "u", "b", False), ("x", "m", "c", False)], "weak")),
+        # one-way ring of five: strongly connected, b->a needs four hops
+        ("d7", _g("a b c d e", "r0 r1 r2 r3 r4:D", [("a", "b", "r0", False), ("b", "c", "r1", False), ("c", "d", "r2 r2", False),
+                                                     ("d", "e", "r3", False), ("e", "a", "r4:D", False)])),
+        # the same link used by two consecutive hops
+        ("d8", _g("a b c", "L", [("a", "b", "L", True), ("b", "c", "L", True)])),
+    ]
+
+
+def rename(g, pre):
+    if not pre:
+        return g
+    return dict(nodes=[(pre + n, t) for n, t in g["nodes"]], links=[(pre + n, lat, pol) for n, lat, pol in g["links"]],
+                routes=[(pre + a, pre + b, [(pre + l, d) for l, d in ll], sym) for a, b, ll, sym in g["routes"]], cls=g["cls"])
+
+
+def cone_pairs(nodes, dist):
+    """Pairs (s, d) with a path for which some x unreachable from s has dist(x, d) <= dist(s, d)."""
+    cone = set()
+    for s in nodes:
+        unreach = [x for x in nodes if (s, x) not in dist]
+        if not unreach:
+            continue
+        for d in nodes:
+            if d != s and (s, d) in dist:
+                c = dist[(s, d)]
+                if any(dist.get((x, d), c + 1) <= c for x in unreach):
+                    cone.add((s, d))
+    return cone
+
+
+def prepare(p, g):
+    """Ground truth of a Floyd/Dijkstra platform from its declarations."""
+    zn = p.zn
+    p.nodes = [n for n, _ in g["nodes"]]
+    p.nodeset = set(p.nodes)
+    p.hosts = set(n for n, t in g["nodes"] if t == "host")
+    p.edges = O.declared_edges(p, zn)
+    p.edges_rev = {k: list(reversed(v)) for k, v in p.edges.items()}
+    p.adj, p.adj_rev = O.adjacency(p.edges), O.adjacency(p.edges_rev)
+    p.dist = O.shortest(p.nodes, p.edges)
+    p.judged = [(a, b) for a in p.nodes for b in p.nodes if a != b and (a, b) in p.dist]
+    p.cone = cone_pairs(p.nodes, p.dist)
+
+
+def build_plat(pid, kind, g0, rng, pre="", f13_absent=True, ask_cone=True):
+    g = rename(g0, pre)
     p = G.Plat(pid)
-    p.kind = kind
-    p.graph = g
-    p.zone("z", None, kind)
+    p.kind, p.graph, p.pre, p.zn = kind, g, pre, pre + "z"
+    zn = p.zn
+    p.zone(zn, None, kind)
     for name, typ in g["nodes"]:
-        (p.host if typ == "host" else p.router)(name, "z")
+        (p.host if typ == "host" else p.router)(name, zn)
     for name, lat, pol in g["links"]:
-        p.link(name, "z", lat, pol)
+        p.link(name, zn, lat, pol)
     for a, b, ll, sym in g["routes"]:
-        p.route("z", a, b, ll, sym)
-    p.seal("z")
-    nodes = [n for n, _ in g["nodes"]]
-    hosts = [n for n, t in g["nodes"] if t == "host"]
-    edges = O.declared_edges(p, "z")
-    dist = O.shortest(nodes, edges)
-    p.edges, p.dist = edges, dist
-    p.edges_rev = {k: list(reversed(v)) for k, v in edges.items()}
-    pairs = [(a, b) for a in nodes for b in nodes if a != b and (a, b) in dist]
-    p.judged = pairs
+        p.route(zn, a, b, ll, sym)
+    p.seal(zn)
+    prepare(p, g)
     p.tags.add(g["cls"])
+    p.n_q = p.n_lq = 0
+    p.asked = set()
+
+    def ask(a, b):
+        if a in p.hosts and b in p.hosts:
+            p.q("Q %s %s" % (a, b))
+            p.n_q += 1
+        p.q("LQ %s %s %s" % (zn, a, b))
+        p.n_lq += 1
+        p.asked.add((a, b))
+
     if kind == "floyd":
-        p.q("Q")
-        p.q("LQA z")
+        for a in p.nodes:
+            for b in p.nodes:
+                if a in p.hosts and b in p.hosts:
+                    p.q("Q %s %s" % (a, b))
+                    p.n_q += 1
+                p.asked.add((a, b))
+        p.q("LQA " + zn)
+        p.n_lq += len(p.nodes) ** 2
     else:
-        order = list(pairs)
-        rng.shuffle(order)
-        second = list(order)
-        rng.shuffle(second)
-        for a, b in order + (second if kind == "dijkstracache" else []):
-            if a in hosts and b in hosts:
-                p.q("Q %s %s" % (a, b))
-            p.q("LQ z %s %s" % (a, b))
+        safe = [pr for pr in p.judged if pr not in p.cone]
+        cone = [pr for pr in p.judged if pr in p.cone] if ask_cone else []
+        # the pairs the open finding can touch come last (a spin ends the child); DijkstraCache is asked every pair twice,
+        # the second time in another random order (cache hit vs miss must agree)
+        for part in (safe, cone):
+            rng.shuffle(part)
+            for a, b in part:
+                ask(a, b)
+            if kind == "dijkstracache":
+                again = list(part)
+                rng.shuffle(again)
+                for a, b in again:
+                    ask(a, b)
+        if f13_absent:
+            # pairs without any path and self pairs: any answer but a route (resp. any answer) is accepted; not asked while
+            # the unfixed Dijkstra zone is known to spin on them
+            unreach = [(a, b) for a in p.nodes for b in p.nodes if a != b and (a, b) not in p.dist]
+            rng.shuffle(unreach)
+            for a, b in unreach[:20]:
+                ask(a, b)
+            for a in rng.sample(p.nodes, min(3, len(p.nodes))):
+                ask(a, a)
+    p.cone_skipped = 0 if (ask_cone or kind == "floyd") else len([pr for pr in p.judged if pr in p.cone])
     return p
 
 
-def gen_full(rng, pid):
+def gen_full(rng, pid, pre=""):
     p = G.Plat(pid)
-    p.kind = "full"
+    p.kind, p.pre, p.zn = "full", pre, pre + "z"
+    zn = p.zn
     n = rng.randint(2, 7)
-    p.zone("z", None, "full")
-    hosts = [p.host("h%d" % i, "z") for i in range(n)]
+    p.zone(zn, None, "full")
+    hosts = [p.host("%sh%d" % (pre, i), zn) for i in range(n)]
+    p.nodes, p.nodeset, p.hosts = hosts, set(hosts), set(hosts)
     nl = 0
     decl = {}
     for a in hosts:
@@ -139,254 +264,384 @@ def gen_full(rng, pid):
             ll = []
             for _ in range(rng.choice([1, 1, 2, 3, 4])):
                 pol = rng.choice(["S", "F", "D"])
-                name = p.link("l%d" % nl, "z", rng.choice([0.0, 1e-3]), pol)
+                name = p.link("%sl%d" % (pre, nl), zn, rng.choice([0.0, 1e-3]), pol)
                 nl += 1
                 ll.append((name, rng.choice([G.UP, G.DOWN]) if pol == "D" else G.NONE))
-            p.route("z", a, b, ll, sym)
+            p.route(zn, a, b, ll, sym)
             decl[(a, b)] = p.forward(ll)
             if sym:
                 decl[(b, a)] = p.backward(ll)
-    p.seal("z")
+    p.seal(zn)
     p.decl = decl
-    p.q("Q")
-    p.q("LQA z")
+    p.n_q = p.n_lq = 0
+    for a in hosts:
+        for b in hosts:
+            p.q("Q %s %s" % (a, b))
+            p.n_q += 1
+    p.q("LQA " + zn)
+    p.n_lq = n * n
+    p.cone = set()
+    p.cone_skipped = 0
     return p
 
 
-def unreachable_from(p, src):
-    return any((src, n) not in p.dist for n, _ in p.graph["nodes"] if n != src)
+# ----------------------------------------------------------------------------------------------------------------------
+# observation
+# ----------------------------------------------------------------------------------------------------------------------
+class Obs:
+    """What one platform answered (its share of a bundle's output)."""
+
+    def __init__(self, p, res):
+        self.status, self.done, self.spin, self.noise, self.build_errors = res.status, res.done, res.spin, res.noise, res.build_errors
+        self.answers = {}      # (s, d) -> [(how, links|None, exc|None)] in query order
+        self.gateways = []
+        nq = nlq = 0
+        for s, d, lat, links, exc in res.routes:
+            if s in p.nodeset:
+                self.answers.setdefault((s, d), []).append(("route_to", links, exc))
+                nq += 1
+        for z, s, d, v in res.local_all:
+            if z == p.zn:
+                self.answers.setdefault((s, d), []).append(("get_local_route", v.get("links"), v.get("exc")))
+                nlq += 1
+                if v.get("gw_src") or v.get("gw_dst"):
+                    self.gateways.append((s, d, v.get("gw_src"), v.get("gw_dst")))
+        self.complete = res.status == "ok" and res.done and nq == p.n_q and nlq == p.n_lq
 
 
-def check_sp(ctx, p, res, fl):
-    """Judge one Floyd/Dijkstra/DijkstraCache platform. Returns (fully_checked, nontrivial, costs{pair: n})."""
+def run_bundle(fl, members, scratch, cpu=None, bid=None):
+    b = G.Bundle(bid or ("B-" + members[0].id), members)
+    return G.run_batch(fl, [b], cpu or CPU_Q[fl], WALL, scratch)[b.id]
+
+
+def witness(p, fl):
+    return dict(p.witness(), flavour=fl, kind=p.kind, zone=p.zn)
+
+
+# ----------------------------------------------------------------------------------------------------------------------
+# oracle
+# ----------------------------------------------------------------------------------------------------------------------
+def check_sp(ctx, p, obs, fl):
+    """Judge every answer of one Floyd/Dijkstra/DijkstraCache platform.
+    Returns (all asked judged pairs answered and right, non-trivial, {unprefixed pair: link count of the first answer})."""
     kind = p.kind
-    w = dict(p.witness(), flavour=fl, kind=kind)
-    answers = {}
-    for s, d, lat, links, exc in res.routes:
-        answers.setdefault((s, d), []).append(("R", links, exc))
-    for (z, s, d), v in res.local.items():
-        answers.setdefault((s, d), []).append(("LR", v.get("links"), v.get("exc")))
-        if v.get("gw_src") or v.get("gw_dst"):
-            ctx.violation("C25:%s:gateway-on-flat-zone" % kind, "%s: local route %s->%s of a zone without sub-zones reports gateways %r/%r"
-                          % (p.id, s, d, v.get("gw_src"), v.get("gw_dst")), w)
+    w = witness(p, fl)
+    reported = set()
+
+    def viol(key, what):
+        if key not in reported:         # one report per platform and key; every occurrence is counted
+            reported.add(key)
+            ctx.violation(key, "%s: %s" % (p.id, what), w)
+        ctx.count("bad_answers")
+
+    for s, d, gs, gd in obs.gateways:
+        viol("C25:%s:gateway-on-flat-zone" % kind, "local route %s->%s of a zone without sub-zones reports gateways %r/%r" % (s, d, gs, gd))
     ok = True
     nontriv = False
-    costs = {}
-    for (a, b) in p.judged:
-        ans = answers.get((a, b))
-        if not ans:
-            ok = False
+    lens = {}
+    cache = {}
+    npre = len(p.pre)
+    for (a, b), ans in obs.answers.items():
+        if a == b:
+            ctx.count("self_pairs_seen_not_judged", len(ans))
             continue
-        feat = ":some-node-unreachable-from-source" if unreachable_from(p, a) else ""
+        if (a, b) not in p.dist:
+            # no chain of declared routes exists: raising is the only answer that is not a made-up route
+            for how, links, exc in ans:
+                ctx.count("unreachable_pair_answers")
+                if links is not None:
+                    viol("C25:%s:route-returned-for-pair-without-path" % kind,
+                         "%s %s->%s returned %r although no chain of declared routes leads from %s to %s" % (how, a, b, links, a, b))
+                    ok = False
+    for (a, b) in p.judged:
+        ans = obs.answers.get((a, b))
+        if not ans:
+            if (a, b) in p.asked:
+                ok = False
+            continue
+        feat = (":" + CONE) if (a, b) in p.cone else ""
         want = p.dist[(a, b)]
         ctx.count("pairs_judged")
         first = None
         for how, links, exc in ans:
             ctx.count("answers_checked")
             if links is None:
-                ctx.violation("C25:%s:no-route-for-reachable-pair%s" % (kind, feat),
-                              "%s: %s %s->%s raised %r although a chain of declared routes of %d links exists" % (p.id, how, a, b, exc, want), w)
+                viol("C25:%s:no-route-for-reachable-pair%s" % (kind, feat),
+                     "%s %s->%s raised %r although a chain of declared routes of %d links exists" % (how, a, b, exc, want))
                 ok = False
                 continue
             if first is None:
                 first = links
+                lens[(a[npre:], b[npre:])] = len(links)
             elif links != first:
-                ctx.violation("C25:%s:answers-differ-between-queries%s" % (kind, feat),
-                              "%s: %s->%s answered %r and then %r (cache miss vs hit / route_to vs get_local_route)" % (p.id, a, b, first, links), w)
+                viol("C25:%s:answers-differ-between-queries%s" % (kind, feat),
+                     "%s->%s answered %r and then %r (cache miss vs hit / route_to vs get_local_route)" % (a, b, first, links))
                 ok = False
-            ch = O.chain_of(links, a, b, p.edges)
-            if ch is None and O.chain_of(links, a, b, p.edges_rev) is not None:
-                # right hops, but the links of each multi-link hop come out in reverse order: judged on its own key, then the
-                # cost is still compared below
-                ctx.violation("C25:%s:hop-links-reversed" % kind,
-                              "%s: %s %s->%s returned %r: the right chain of declared routes %r, but the links of each multi-link "
-                              "one-hop route are listed in reverse order" % (p.id, how, a, b, links, O.chain_of(links, a, b, p.edges_rev)), w)
+            key = (a, b, tuple(links))
+            if key not in cache:
+                ch, rev = O.chain_of(links, a, b, p.edges, p.adj), False
+                if ch is None:
+                    ch = O.chain_of(links, a, b, p.edges_rev, p.adj_rev)
+                    rev = ch is not None
+                cache[key] = (ch, rev)
+            ch, rev = cache[key]
+            if rev:
+                # the right hops, but the links of each multi-link hop come out in reverse order: own key; the cost is
+                # still compared below
+                viol("C25:%s:hop-links-reversed" % kind,
+                     "%s %s->%s returned %r: the hops %r are declared routes, but the links of every multi-link hop are listed in reverse "
+                     "order (declared %r)" % (how, a, b, links, ch, [p.edges[h] for h in ch]))
                 ctx.count("answers_with_reversed_hop_links")
-                ch = O.chain_of(links, a, b, p.edges_rev)
-                if len(links) == want:
-                    costs[(a, b)] = len(links)
-                    continue
+                ok = False
             if ch is None:
-                ctx.violation("C25:%s:not-a-chain-of-declared-routes%s" % (kind, feat),
-                              "%s: %s %s->%s returned %r which is not a concatenation of declared one-hop routes from %s to %s (minimal cost %d)"
-                              % (p.id, how, a, b, links, a, b, want), w)
+                viol("C25:%s:not-a-chain-of-declared-routes%s" % (kind, feat),
+                     "%s %s->%s returned %r which is not a concatenation of declared one-hop routes from %s to %s (minimal cost %d)"
+                     % (how, a, b, links, a, b, want))
                 ok = False
             elif len(links) != want:
-                ctx.violation("C25:%s:not-minimal%s" % (kind, feat),
-                              "%s: %s %s->%s returned %d links %r (chain %r) but a chain of %d links exists" % (p.id, how, a, b, len(links), links, ch, want), w)
+                viol("C25:%s:not-minimal%s" % (kind, feat),
+                     "%s %s->%s returned %d links %r (chain %r) but a chain of %d links exists" % (how, a, b, len(links), links, ch, want))
                 ok = False
-            else:
-                costs[(a, b)] = len(links)
-                if len(ch) >= 2:
-                    nontriv = True
-                    ctx.count("multi_hop_pairs")
-    return ok, nontriv, costs
+            elif len(ch) >= 2:
+                nontriv = True
+                ctx.count("multi_hop_answers")
+    return ok, nontriv, lens
 
 
-def check_full(ctx, p, res, fl):
-    w = dict(p.witness(), flavour=fl, kind="full")
+def check_full(ctx, p, obs, fl):
+    w = witness(p, fl)
     ok = True
-    answers = []
-    for s, d, lat, links, exc in res.routes:
-        answers.append(("route_to", s, d, links, exc))
-    for (z, s, d), v in res.local.items():
-        answers.append(("get_local_route", s, d, v.get("links"), v.get("exc")))
     seen = set()
-    for how, s, d, links, exc in answers:
+    for (s, d), ans in obs.answers.items():
         if (s, d) not in p.decl:
+            ctx.count("full.undeclared_pairs_seen_not_judged", len(ans))
             continue
-        ctx.count("pairs_judged")
         seen.add((s, d))
-        if links != p.decl[(s, d)]:
-            ctx.violation("C25:full:differs-from-declared", "%s: %s %s->%s returned %r (exception %r), declared %r" % (p.id, how, s, d, links, exc, p.decl[(s, d)]), w)
-            ok = False
-    return ok and len(seen) == len(p.decl), len(p.decl) >= 2
+        ctx.count("pairs_judged")
+        for how, links, exc in ans:
+            ctx.count("answers_checked")
+            if links != p.decl[(s, d)]:
+                ctx.violation("C25:full:differs-from-declared", "%s: %s %s->%s returned %r (exception %r), declared %r"
+                              % (p.id, how, s, d, links, exc, p.decl[(s, d)]), w)
+                ok = False
+    return ok and len(seen) == len(p.decl), len(p.decl) >= 2, {}
 
 
-def directed():
-    """The minimal F13 witness: s->u and x->u one-way; x cannot be reached from s; the declared pair s->u is asked."""
-    g = dict(nodes=[("s", "host"), ("u", "host"), ("x", "host")], links=[("a", 1e-3, "S"), ("b", 1e-3, "S")],
-             routes=[("s", "u", [("a", "")], False), ("x", "u", [("b", "")], False)], cls="weak")
-    return g
+class Run:
+    """Shared state of one run() / replay()."""
+
+    def __init__(self, ctx, scratch):
+        self.ctx, self.scratch = ctx, scratch
+        self.lock = threading.Lock()
+        self.cone_spin_confirmed = set()     # zone kinds for which a spin inside the F13 cone was already confirmed by a second run
+        self.lens = {}                       # platform id -> {pair: link count}   (plain flavour only)
+
+    def spin_pair(self, p, spin):
+        t = spin.split()
+        if len(t) >= 5 and t[1] == "LR":
+            return t[3], t[4]
+        if len(t) >= 4 and t[1] == "R":
+            return t[2], t[3]
+        return None
+
+    @staticmethod
+    def spin_text(spin):
+        return " ".join(t for t in spin.split()[1:] if not t.startswith("cpu_in_query"))
+
+    def single(self, p, fl, res=None):
+        """Judge one platform run alone in its child (status handling + oracle)."""
+        ctx = self.ctx
+        if res is None:
+            res = run_bundle(fl, [p], self.scratch)
+        ctx.evaluation()
+        w = witness(p, fl)
+        if res.build_errors:
+            raise core.HarnessFailure("generator built an invalid platform %s: %s" % (p.id, res.build_errors[:2]))
+        if res.status in ("wall", "missing"):
+            ctx.inconclusive("wall-clock watchdog (%s) on %s" % (res.status, p.id))
+            return
+        obs = Obs(p, res)
+        if res.status == "spin":
+            ctx.count("spin_first_budget")
+            pair = self.spin_pair(p, res.spin or "")
+            in_cone = pair in p.cone and p.kind in ("dijkstra", "dijkstracache")
+            judged = pair is not None and pair[0] != pair[1] and pair in p.dist
+            feat = (":" + CONE) if in_cone else ""
+            key = "C25:%s:spin:%s%s" % (p.kind, "reachable-pair" if judged else ("build" if pair is None else "pair-outside-statement"), feat)
+            with self.lock:
+                skip = in_cone and p.kind in self.cone_spin_confirmed
+            if skip:
+                # same class as a spin already confirmed in this run for this zone kind (open finding): not re-run
+                ctx.count("spin_in_f13_cone_not_reconfirmed")
+                ctx.violation(key, "%s: the query '%s' did not return within %.0f s of CPU time; the pair has a chain of declared routes"
+                              % (p.id, self.spin_text(res.spin), CPU_Q[fl]), w)
+            else:
+                again = run_bundle("hooks", [p], self.scratch, cpu=CPU_CONFIRM)     # a spin is not a memory error: plain flavour
+                if again.status == "spin" and again.spin and self.spin_pair(p, again.spin) == pair and again.spin.split()[1] == res.spin.split()[1]:
+                    if judged:
+                        ctx.violation(key, "%s: the query '%s' did not return within %.0f s and then %.0f s of CPU time (second run: %s); "
+                                      "the pair has a chain of declared routes" % (p.id, self.spin_text(res.spin), CPU_Q[fl], CPU_CONFIRM,
+                                                                                   again.spin.strip()), w)
+                        if in_cone:
+                            with self.lock:
+                                self.cone_spin_confirmed.add(p.kind)
+                    else:
+                        # a query the statement says nothing about (no path / self) or a build step: a hang all the same
+                        ctx.violation(key, "%s: '%s' did not return within %.0f s and then %.0f s of CPU time"
+                                      % (p.id, self.spin_text(res.spin), CPU_Q[fl], CPU_CONFIRM), w)
+                elif again.status in ("wall", "missing"):
+                    ctx.inconclusive("confirmation run hit the wall-clock watchdog on %s" % p.id)
+                else:
+                    ctx.inconclusive("CPU budget exhausted once, not reproduced (%s)" % p.id)
+        elif res.status != "ok" or not res.done:
+            reps = [l for l in res.noise if "Sanitizer" in l or "runtime error" in l]
+            ctx.violation("C25:%s:crash:%s" % (p.kind, res.status), "%s: child ended with %s: %s" % (p.id, res.status, (reps or res.noise)[:3]), w)
+        # whatever was answered is judged
+        self.judge(p, obs, fl)
+
+    def judge(self, p, obs, fl):
+        ctx = self.ctx
+        ok, nt, lens = (check_full if p.kind == "full" else check_sp)(ctx, p, obs, fl)
+        if fl == "hooks" and lens:
+            with self.lock:
+                self.lens[p.id] = lens
+        if ok and obs.complete:
+            ctx.count("platforms_fully_checked." + p.kind)
+            if nt:
+                ctx.nontrivial(p.id + "/" + fl)
+        if p.cone_skipped:
+            ctx.count("f13_cone_pairs_not_asked", p.cone_skipped)
+
+    def job(self, job):
+        """job = (flavour, [bundle, ...]) with bundle = [platform, ...]: one harness process (starting an ASan process is
+        expensive), one forked child = one engine per bundle."""
+        fl, bundles = job
+        if len(bundles) == 1 and len(bundles[0]) == 1:
+            self.single(bundles[0][0], fl)
+            return
+        bs = [G.Bundle("B-" + members[0].id, members) for members in bundles]
+        out = G.run_batch(fl, bs, CPU_Q[fl], WALL, self.scratch)
+        for b in bs:
+            res = out[b.id]
+            if res.status == "ok" and res.done and not res.build_errors:
+                for p in b.members:
+                    self.ctx.evaluation()
+                    self.judge(p, Obs(p, res), fl)
+            else:
+                # something went wrong in this engine: every member is run again alone so that the culprit is isolated
+                self.ctx.count("bundles_rerun_member_by_member")
+                _dbg("bundle %s (%s) ended with %s done=%s %s %s %s" % (b.id, fl, res.status, res.done, res.spin, res.build_errors[:2], res.noise[:3]))
+                for p in b.members:
+                    self.single(p, fl)
+
+    def compare(self, groups):
+        """The three algorithms must agree on the link count."""
+        ctx = self.ctx
+        for g in groups:
+            ks = [k for k in g if g[k].id in self.lens]
+            for i in range(len(ks)):
+                for j in range(i + 1, len(ks)):
+                    ca, cb = self.lens[g[ks[i]].id], self.lens[g[ks[j]].id]
+                    for pair in set(ca) & set(cb):
+                        ctx.count("cross_kind_comparisons")
+                        if ca[pair] != cb[pair]:
+                            ctx.violation("C25:disagree:%s-vs-%s" % (ks[i], ks[j]), "%s: %s->%s costs %d links in the %s zone and %d in the %s zone"
+                                          % (g[ks[i]].id, pair[0], pair[1], ca[pair], ks[i], cb[pair], ks[j]),
+                                          {"members": [witness(g[ks[i]], "hooks"), witness(g[ks[j]], "hooks")]})
 
 
-def run_platforms(ctx, fl, plats, scratch, cpu=None):
-    c, wl = G.budgets(fl)
-    return G.run_batch(fl, plats, cpu or c, wl, scratch)
+def _dbg(msg):
+    if os.environ.get("VERIF_C25_DEBUG"):
+        sys.stderr.write("[C25 %.1fs] %s\n" % (time.time() - _T0, msg))
 
 
-def judge(ctx, p, res, fl, scratch, state):
-    """Common status handling; returns True when the platform produced a complete answer set."""
-    ctx.evaluation()
-    w = dict(p.witness(), flavour=fl, kind=p.kind)
-    feat_all = ":some-node-unreachable-from-source" if p.kind != "full" and any(unreachable_from(p, n) for n, _ in p.graph["nodes"]) else ""
-    if res.status in ("wall", "missing"):
-        ctx.inconclusive("wall-clock watchdog (%s)" % res.status)
-        return False
-    if res.build_errors:
-        raise Exception("generator built an invalid platform %s: %s" % (p.id, res.build_errors[:2]))
-    if res.status == "spin":
-        ctx.count("spin_first_budget")
-        if state["confirmed"] >= state["max_confirm"]:
-            ctx.count("spin_not_reconfirmed")
-            return False
-        state["confirmed"] += 1
-        c, wl = G.budgets("hooks")       # the confirmation run always uses the plain flavour (a spin is not a memory error)
-        again = G.run_batch("hooks", [p], 4 * c, 4 * wl, scratch)[p.id]
-        if again.status == "spin" and again.spin and res.spin and again.spin.split()[1:4] == res.spin.split()[1:4]:
-            t = res.spin.split()
-            src = t[2] if t[1] == "R" else t[3]
-            feat = ":some-node-unreachable-from-source" if p.kind != "full" and src in dict(p.graph["nodes"]) and unreachable_from(p, src) else ""
-            ctx.violation("C25:%s:spin:reachable-pair%s" % (p.kind, feat),
-                          "%s: the query '%s' did not return within %.0f s and then %.0f s of CPU time (second run: %s); the pair has a chain of declared routes"
-                          % (p.id, " ".join(t[1:4]), c, 4 * c, again.spin.strip()), w)
-        else:
-            ctx.inconclusive("CPU budget exhausted once, not reproduced")
-        return False
-    if res.status != "ok" or not res.done:
-        reps = [l for l in res.noise if "Sanitizer" in l or "runtime error" in l]
-        ctx.violation("C25:%s:crash:%s%s" % (p.kind, res.status, feat_all), "%s: child ended with %s: %s" % (p.id, res.status, (reps or res.noise)[:3]), w)
-        return False
-    return True
+_T0 = time.time()
 
 
 def run(ctx):
     scratch = tempfile.mkdtemp(prefix="verif-C25-")
     try:
-        ng = ctx.size(150, 4000)
-        nfull = ctx.size(40, 600)
-        groups = []          # (graph index, {kind: plat})
-        dg = directed()
-        r0 = ctx.sub_rng("directed")
-        groups.append({k: build_plat("d0-" + k, k, dg, r0) for k in KINDS})
-        for i in range(ng):
-            rng = ctx.sub_rng("g", i)
-            g = gen_graph(rng)
-            kinds = KINDS
-            if g["cls"] == "weak" and i % 5 != 0:
-                kinds = ("floyd",)     # one-way graphs mostly on Floyd only: Dijkstra zones spin on most of them (known finding), each spin costs 15 s of CPU
-            groups.append({k: build_plat("g%d-%s" % (i, k), k, g, rng) for k in kinds})
-        fulls = [gen_full(ctx.sub_rng("f", i), "f%d" % i) for i in range(nfull)]
-        for gidx in (1, 2):
-            if gidx < len(groups):
-                ctx.sample({"zone_kinds": list(groups[gidx]), "nodes": groups[gidx]["floyd"].graph["nodes"], "routes": groups[gidx]["floyd"].graph["routes"][:12]})
-        jobs = []
-        allp = [p for g in groups for p in g.values()] + fulls
-        slow = [p for p in allp if p.kind in ("dijkstra", "dijkstracache") and "weak" in p.tags]   # likely to burn a CPU budget: one per process
-        fast = [p for p in allp if p not in slow]
-        for p in slow:
-            jobs.append(("hooks", [p]))
-        for ch in G.chunks(fast, 6):
-            jobs.append(("hooks", ch))
-        asan_share = [p for i, p in enumerate(fast) if i % 10 == 0]
-        for ch in G.chunks(asan_share, 6):
-            jobs.append(("asan", ch))
         for fl in ("hooks", "asan"):
             G.harness(fl)
-        state = {"confirmed": 0, "max_confirm": 4}
-        costs = {}
+        _dbg("harness binaries ready")
+        st = Run(ctx, scratch)
+        ng = ctx.size(150, 4000)
+        nfull = ctx.size(40, 600)
+        serial = [0]
 
-        def one(job):
-            fl, ch = job
-            out = run_platforms(ctx, fl, ch, scratch)
-            for p in ch:
-                res = out[p.id]
-                if not judge(ctx, p, res, fl, scratch, state):
-                    continue
-                if p.kind == "full":
-                    ok, nt = check_full(ctx, p, res, fl)
+        def pre():
+            serial[0] += 1
+            return "p%d_" % serial[0]
+
+        # phase 1: the minimal witness of the open finding F13 (d0) on the three zone kinds, each alone in its child. Its
+        # outcome decides what the Dijkstra zones of the other one-way graphs are asked (see level_note).
+        groups = []
+        dgs = directed_graphs()
+        name, dg = dgs[0]
+        grp = {k: build_plat("%s-%s" % (name, k), k, dg, ctx.sub_rng("directed", name), pre=pre(), f13_absent=False) for k in KINDS}
+        groups.append(grp)
+        ctx.pmap(st.job, [("hooks", [[grp[k]]]) for k in KINDS])
+        _dbg("phase 1 (F13 witness) done")
+        f13_absent = not st.cone_spin_confirmed
+        ctx.extra["dijkstra_asked_every_pair"] = f13_absent
+
+        # phase 2: the other directed graphs, then random graphs
+        cases = []
+        slow = []
+        first = []
+        todo = [(name, dg, ctx.sub_rng("directed", name), True) for name, dg in dgs[1:]]
+        for i in range(ng):
+            rng = ctx.sub_rng("g", i)
+            todo.append(("g%d" % i, gen_graph(rng), rng, f13_absent or i % 8 == 0))
+        for name, g, rng, ask_cone in todo:
+            grp = {k: build_plat("%s-%s" % (name, k), k, g, rng, pre=pre(), f13_absent=f13_absent, ask_cone=ask_cone) for k in KINDS}
+            groups.append(grp)
+            for k in KINDS:
+                p = grp[k]
+                if k != "floyd" and not f13_absent and ask_cone and any(pr in p.cone for pr in p.judged):
+                    slow.append(p)       # expected to spin (open finding): alone in its child
+                elif name[0] == "d":
+                    first.append(p)
                 else:
-                    ok, nt, c = check_sp(ctx, p, res, fl)
-                    if fl == "hooks":
-                        costs[p.id] = c
-                if ok and nt:
-                    ctx.nontrivial(p.id + "/" + fl)
-                if ok:
-                    ctx.count("platforms_fully_checked." + p.kind)
-
-        ctx.pmap(one, jobs)
-        # the three algorithms must agree on the link count
-        for g in groups:
-            ks = [k for k in g if g[k].id in costs]
-            for i in range(len(ks)):
-                for j in range(i + 1, len(ks)):
-                    ca, cb = costs[g[ks[i]].id], costs[g[ks[j]].id]
-                    for pair in set(ca) & set(cb):
-                        ctx.count("cross_kind_comparisons")
-                        if ca[pair] != cb[pair]:
-                            ctx.violation("C25:disagree:%s-vs-%s" % (ks[i], ks[j]), "%s: %s->%s costs %d links in the %s zone and %d in the %s zone"
-                                          % (g[ks[i]].id, pair[0], pair[1], ca[pair], ks[i], cb[pair], ks[j]), g[ks[i]].witness())
+                    cases.append(p)
+        ctx.count("directed_platforms", 3 * len(dgs))
+        fulls = [gen_full(ctx.sub_rng("f", i), "f%d" % i, pre()) for i in range(nfull)]
+        for gi in (len(dgs), len(dgs) + 1):
+            if gi < len(groups):
+                gg = groups[gi]["floyd"].graph
+                ctx.sample({"zone_kinds": list(groups[gi]), "class": gg["cls"], "nodes": gg["nodes"], "routes": gg["routes"][:12]})
+        allp = cases + fulls
+        order = list(range(len(allp)))
+        ctx.sub_rng("bundling").shuffle(order)
+        allp = [allp[i] for i in order]
+        jobs = [("hooks", [[p]]) for p in slow]
+        jobs += [("asan", bs) for bs in G.chunks(G.chunks(first + [p for i, p in enumerate(allp) if i % 7 == 0], 8), 3)]
+        jobs += [("hooks", bs) for bs in G.chunks(G.chunks(first + allp, 8), 3)]
+        _dbg("phase 2 generated: %d jobs" % len(jobs))
+        ctx.pmap(st.job, jobs)
+        _dbg("phase 2 done")
+        st.compare(groups)
     finally:
         shutil.rmtree(scratch, ignore_errors=True)
 
 
-def replay(ctx, w):
-    """Re-run the stored platform spec; judge it again with the oracle rebuilt from the spec lines."""
-    scratch = tempfile.mkdtemp(prefix="verif-C25-")
-    try:
-        p = rebuild(w)
-        fl = w.get("flavour", "hooks")
-        res = run_platforms(ctx, fl, [p], scratch)[p.id]
-        state = {"confirmed": 0, "max_confirm": 1}
-        if judge(ctx, p, res, fl, scratch, state):
-            if p.kind == "full":
-                check_full(ctx, p, res, fl)
-            else:
-                check_sp(ctx, p, res, fl)
-    finally:
-        shutil.rmtree(scratch, ignore_errors=True)
-
-
+# ----------------------------------------------------------------------------------------------------------------------
+# replay
+# ----------------------------------------------------------------------------------------------------------------------
 def rebuild(w):
     """Reconstruct the Plat (ground truth included) from the spec lines of a witness."""
     p = G.Plat(w["id"])
     p.kind = w["kind"]
     nodes, routes = [], []
     decl = {}
+    p.n_q = p.n_lq = 0
+    p.asked = set()
+    lqa = False
     for line in w["spec"]:
         t = line.split()
         if t[0] == "Z":
             p.zone(t[1], None, t[3])
+            p.zn = t[1]
         elif t[0] == "H":
             p.host(t[1], t[2])
             nodes.append((t[1], "host"))
@@ -404,10 +659,42 @@ def rebuild(w):
                 decl[(t[3], t[2])] = p.backward(ll)
         else:
             p.lines.append(line)
+            if t[0] == "Q" and len(t) == 3:
+                p.n_q += 1
+                p.asked.add((t[1], t[2]))
+            elif t[0] == "LQ":
+                p.n_lq += 1
+                p.asked.add((t[2], t[3]))
+            elif t[0] == "LQA":
+                lqa = True
+    p.pre = p.zn[:-1]
     p.graph = dict(nodes=nodes, routes=routes, cls="replay")
     p.decl = decl
-    p.edges = O.declared_edges(p, "z")
-    p.edges_rev = {k: list(reversed(v)) for k, v in p.edges.items()}
-    p.dist = O.shortest([n for n, _ in nodes], p.edges)
-    p.judged = [(a, b) for a, _ in nodes for b, _ in nodes if a != b and (a, b) in p.dist]
+    p.cone_skipped = 0
+    if p.kind == "full":
+        p.nodes = [n for n, _ in nodes]
+        p.nodeset = p.hosts = set(p.nodes)
+        p.cone = set()
+    else:
+        prepare(p, p.graph)
+    if lqa:
+        p.n_lq += len(nodes) ** 2
+        p.asked |= set((a, b) for a, _ in nodes for b, _ in nodes)
     return p
+
+
+def replay(ctx, w):
+    """Re-run the stored platform spec(s); judge again with the oracle rebuilt from the spec lines."""
+    scratch = tempfile.mkdtemp(prefix="verif-C25-")
+    try:
+        st = Run(ctx, scratch)
+        members = w.get("members") or [w]
+        grp = {}
+        for m in members:
+            p = rebuild(m)
+            st.single(p, m.get("flavour", "hooks"))
+            grp[p.kind] = p
+        if len(grp) > 1:
+            st.compare([grp])
+    finally:
+        shutil.rmtree(scratch, ignore_errors=True)
